@@ -2,6 +2,7 @@ import GwModel.Trans.Transparent
 import GwModel.Gen.Facts
 import GwModel.Point
 import GwModel.FindPtsInsert
+import GwModel.FindPtsStitch
 /-! # C01 — Federated execution is transparent: gateway data equals monolith data
 
 Proved here (model `Tr`, GwModel/Trans): for the core query class (fields, aliases, nested selections,
@@ -75,5 +76,29 @@ theorem follow_up_lands_on_its_object (infos : List Fp.PInfo) (chunk : Ins.KVs) 
   subst hsuf
   obtain ⟨x', hi, hw'⟩ := Fp.insertAt_walk path (.obj chunk) o inc hw
   exact ⟨o, x', hw, hlast, hi, hw'⟩
+
+/-- **one dependent step, any order, any fan-out: every object gets exactly its own follow-up answer.**
+    `paths` are the places `executorFindInsertionPoints` realises for a dependent step in a reply with the promised
+    kinds; `payload p` is what the follow-up call for the object at `p` returns; `l` is any selection of the places
+    in any order, each once.  All insertions succeed; afterwards the object at each stitched place is the object that
+    was there with exactly its own payload merged in, and every place not stitched is as it was.  Nothing is
+    attached to the wrong list element, nothing is lost or overwritten by a sibling. -/
+theorem every_object_gets_its_own_answer (infos : List Fp.PInfo) (chunk : Ins.KVs) (paths : List (List Fp.RPt))
+    (hfind : Fp.findPts infos chunk [] = .ok paths) (hc : Fp.Conf infos chunk) (payload : List Fp.RPt → Ins.KVs)
+    (l : List (List Fp.RPt)) (hsub : ∀ p ∈ l, p ∈ paths) (hnd : (l.map Fp.sig).Nodup) :
+    ∃ final, l.foldl (Fp.stitchOne payload) (some (.obj chunk)) = some final ∧
+      (∀ p ∈ l, ∃ o, Fp.walk (.obj chunk) p = some (.obj o) ∧
+        Fp.walk final p = some (.obj (Ins.mergeK o (payload p)))) ∧
+      (∀ q ∈ paths, Fp.sig q ∉ l.map Fp.sig → Fp.walk final q = Fp.walk (.obj chunk) q) := by
+  have hx : ∀ q ∈ paths, ∃ o, Fp.walk (.obj chunk) q = some (.obj o) := by
+    intro q hq
+    obtain ⟨suf, hsuf, _, o, hw, _⟩ := Fp.findPts_good infos chunk [] paths hfind hc q hq
+    simp only [List.nil_append] at hsuf; subst hsuf
+    exact ⟨o, hw⟩
+  obtain ⟨final, hfold, _, hmine, hrest⟩ := Fp.step_stitch infos chunk paths hfind payload l (.obj chunk) hsub hnd hx
+  refine ⟨final, hfold, ?_, hrest⟩
+  intro p hp
+  obtain ⟨o, hw⟩ := hx p (hsub p hp)
+  exact ⟨o, hw, hmine p hp o hw⟩
 
 end Props.C01
